@@ -118,9 +118,19 @@ def run(ctx, replay=None):
                 else:
                     rowv = [float(x) for x in np.asarray(PD[i, :]).ravel()]
                     mi = model('find_closest_dense', rowv, md, N, golden=(len(rowv) <= 10 and len(model.golden) < 40))
+                stop = False
                 if mi != impl:
                     ctx.problem('correspondence', 'find_closest differs from Kriging.closest', case, {'query': i, 'model': mi, 'impl': impl})
-                    break
+                    stop = True
+                # the space's own maximum distance applies when the argument is left out
+                try:
+                    dflt = [int(x) for x in pair.find_closest(i, N=N)]
+                    if dflt != impl:
+                        ctx.problem('oracle', 'find_closest without an explicit max_dist differs from the call that repeats the space\'s max_dist', case,
+                                    {'query': i, 'explicit': impl, 'default': dflt, 'max_dist': md}, {'what': 'default-max-dist'})
+                        stop = True
+                except Exception as e:
+                    ctx.count('default_call_rejected', type(e).__name__)
                 # oracle: exactly the N nearest among those within max_dist (all if fewer), by exact distances
                 exq = [gen.exact_dist(q[i], c[j], metric) for j in range(npts)]
                 lim = None if md is None else (Fraction(md) ** 2 if metric == 'euclidean' else Fraction(md))
@@ -131,6 +141,8 @@ def run(ctx, replay=None):
                 if len(impl) != want_n or len(set(impl)) != len(impl) or any(j not in cand for j in impl) or sel_d != best_d:
                     ctx.problem('oracle', 'neighbour search does not return exactly the N nearest points within the maximum distance', case,
                                 {'query': i, 'N': N, 'returned': impl, 'candidates_within': len(cand)}, {'what': 'nearest-N', 'storage': 'sparse' if sparse.issparse(PD) else 'dense'})
+                    break
+                if stop:
                     break
                 if md is not None:
                     other = [int(x) for x in dense_ref.find_closest(i, md, N)]
